@@ -22,21 +22,28 @@ import (
 )
 
 type cfg struct {
-	mode   ekit.Mode
-	unix   bool
-	k      int
+	mode ekit.Mode
+	unix bool
+	k    int
+	// reader: the peer also reads from a thread of its own, whenever there is something to read
+	// (so that room is made - and a writability event raised - while a writer is still inside its
+	// call), not only when the system is idle
+	reader bool
 	origin string // onopen | ondata | after | race | sendfile | two | rw | ondial | again | ondata-again | dial-again | dial-then
 	p, d   int
 }
 
 func (c cfg) dial() bool {
-	return c.origin == "ondial" || c.origin == "dial-again" || c.origin == "dial-then"
+	return c.origin == "ondial" || c.origin == "dial-again" || c.origin == "dial-then" || c.origin == "ondial-sendfile"
 }
 
 func (c cfg) name() string {
 	t := "tcp"
 	if c.unix {
 		t = "unix"
+	}
+	if c.reader {
+		return fmt.Sprintf("%s %s K=%d origin=%s peer=reading", t, c.mode, c.k, c.origin)
 	}
 	return fmt.Sprintf("%s %s K=%d origin=%s", t, c.mode, c.k, c.origin)
 }
@@ -93,6 +100,9 @@ func body(c cfg) func() {
 		if c.origin == "onopen" {
 			g.OnOpen(func(cc *nbio.Conn) { write(c.k + 3) })
 		}
+		if c.origin == "onopen-sendfile" {
+			g.OnOpen(func(cc *nbio.Conn) { sendfile(c.k + 3) })
+		}
 		if c.origin == "race" {
 			// a goroutine that learns about the connection in OnOpen and writes concurrently with
 			// the rest of the registration
@@ -118,7 +128,11 @@ func body(c cfg) func() {
 					return
 				}
 				conn = cc
-				if c.origin != "dial-then" {
+				switch c.origin {
+				case "dial-then":
+				case "ondial-sendfile":
+					sendfile(c.k + 3) // the backlog consists of a file range only
+				default:
 					write(c.k + 3)
 				}
 			})
@@ -145,6 +159,8 @@ func body(c cfg) func() {
 			switch c.origin {
 			case "after":
 				vsched.GoNamed("writer", func() { write(c.k + 3) })
+			case "after-sendfile", "again-sendfile":
+				vsched.GoNamed("writer", func() { sendfile(c.k + 3) })
 			case "two":
 				vsched.GoNamed("writer", func() { write(c.k + 1); write(c.k + 2) })
 			case "sendfile":
@@ -158,6 +174,19 @@ func body(c cfg) func() {
 				vsched.GoNamed("peer-sender", func() { peer.Write([]byte{1}); peer.Write([]byte{2}) })
 				vsched.GoNamed("writer", func() { write(c.k + 3) })
 			}
+		}
+		if c.reader && peer != nil {
+			pr := peer
+			vsched.GoNamed("peer-reader", func() {
+				vsched.SetDaemon()
+				for {
+					pr.WaitReadable()
+					if pr.Queued() == 0 {
+						return
+					}
+					pr.Read(0)
+				}
+			})
 		}
 		// fair drain
 		rounds := 0
@@ -185,6 +214,8 @@ func body(c cfg) func() {
 		switch c.origin {
 		case "again", "dial-again", "dial-then":
 			vsched.GoNamed("writer", func() { write(c.k + 3) })
+		case "again-sendfile":
+			vsched.GoNamed("writer", func() { sendfile(c.k + 3) })
 		case "ondata-again":
 			vsched.GoNamed("peer-sender", func() { peer.Write([]byte{2}) })
 		default:
@@ -245,7 +276,7 @@ func build(tier string) []*vkit.Scenario {
 	for _, m := range ekit.Modes {
 		for _, unix := range []bool{false, true} {
 			for _, k := range ks {
-				for _, o := range []string{"onopen", "ondata", "after", "race", "two", "sendfile", "rw", "ondial", "again", "ondata-again", "dial-again", "dial-then"} {
+				for _, o := range []string{"onopen", "ondata", "after", "race", "two", "sendfile", "rw", "ondial", "again", "ondata-again", "dial-again", "dial-then", "ondial-sendfile", "onopen-sendfile", "after-sendfile", "again-sendfile"} {
 					if strings.Contains(o, "dial") && unix {
 						continue
 					}
@@ -253,10 +284,16 @@ func build(tier string) []*vkit.Scenario {
 					if thorough {
 						p, d = 4, 3
 					}
-					c := cfg{mode: m, unix: unix, k: k, origin: o, p: p, d: d}
-					out = append(out, &vkit.Scenario{Name: c.name(), Body: body(c), Check: check, P: p, D: d,
-						Counters: func() map[string]int { return lastCounters }, Outcome: func() string { return lastOutcome },
-						NonTrivial: func(mm map[string]int) bool { return mm["backlog_execs"] > 0 }})
+					for _, rd := range []bool{false, true} {
+						if rd && (strings.Contains(o, "dial") || o == "onopen" || o == "onopen-sendfile" || (!thorough && (unix || k != 2))) {
+							// the reader thread needs the peer before the first write
+							continue
+						}
+						c := cfg{mode: m, unix: unix, k: k, origin: o, p: p, d: d, reader: rd}
+						out = append(out, &vkit.Scenario{Name: c.name(), Body: body(c), Check: check, P: p, D: d,
+							Counters: func() map[string]int { return lastCounters }, Outcome: func() string { return lastOutcome },
+							NonTrivial: func(mm map[string]int) bool { return mm["backlog_execs"] > 0 }})
+					}
 				}
 			}
 		}
@@ -268,7 +305,7 @@ func main() {
 	defer ekit.CleanupFiles()
 	vkit.Main(&vkit.Spec{
 		Property: "C04", Level: "model_checking",
-		Rule: "one scenario = transport x epoll mode x socket capacity K x origin of the write (OnOpen before registration, OnData on the poller, another thread after / racing AddConn, two writes, Sendfile behind a backlog, inside the dial callback; and second rounds from non-initial states: a new backlog after the first one was flushed completely, after a dial whose callback left none, a second OnData write); every interleaving of writer, poller and the peer's reads within the preemption bound and every kernel answer within the deviation bound; liveness decided on terminal states after a fair drain; non-trivial = the execution created a backlog (EAGAIN or short write)",
+		Rule: "one scenario = transport x epoll mode x socket capacity K x origin of the write (OnOpen before registration, OnData on the poller, another thread after / racing AddConn, two writes, Sendfile behind a backlog, inside the dial callback; and second rounds from non-initial states: a new backlog after the first one was flushed completely, after a dial whose callback left none, a second OnData write; and backlogs that consist of a file range only, which the byte counter does not see); every interleaving of writer, poller and the peer's reads (at idle moments, and in a second set of scenarios also from a reader thread that makes room while a writer is still inside its call) within the preemption bound and every kernel answer within the deviation bound; liveness decided on terminal states after a fair drain; non-trivial = the execution created a backlog (EAGAIN or short write)",
 		Assumptions: []string{
 			"simulated kernel: writability wake-ups are delivered only after the socket reported no space (TCP semantics) and as soon as at least one byte is free; every verdict is taken after the peer drained everything",
 			"fair drain: the peer reads everything whenever anything is queued; no further call by the application",
